@@ -179,7 +179,9 @@ func c03Validate(E uintptr, O []byte, funcLen int, P uintptr, W, P0 []byte) (res
 		if off >= 0 && off < res.copied {
 			want, ok := offMap[off]
 			okInternal := ok && pc.tgtW == P+uintptr(want)
-			if off == 0 && pc.tgtW == E {
+			if off == 0 && pc.tgtW == E && pc.kind == "CALL" {
+				// a recursive CALL may reach the mock (as recursion from deeper in the body does); a JMP/Jcc back
+				// to the entry is a loop of the original and has to stay inside the relocated copy
 				okInternal = true
 			}
 			if !okInternal {
